@@ -125,7 +125,23 @@ func DescribeResp(rsp *jrpc2.Response, err error) string {
 		return "nilresponse"
 	}
 	if e := rsp.Error(); e != nil {
-		return fmt.Sprintf("rsperr:%d:%s", e.Code, e.Message)
+		// a failed call carries an error and nothing else: no stray result, and its JSON form is an error response
+		extra := ""
+		if rs := rsp.ResultString(); rs != "" {
+			extra += "+stray-result=" + rs
+		}
+		if bits, merr := rsp.MarshalJSON(); merr == nil {
+			var obj map[string]json.RawMessage
+			if json.Unmarshal(bits, &obj) == nil {
+				if _, ok := obj["result"]; ok {
+					extra += "+marshals-with-result"
+				}
+				if _, ok := obj["error"]; !ok {
+					extra += "+marshals-without-error"
+				}
+			}
+		}
+		return fmt.Sprintf("rsperr:%d:%s%s", e.Code, e.Message, extra)
 	}
 	var s string
 	if json.Unmarshal([]byte(rsp.ResultString()), &s) == nil {
